@@ -1,6 +1,7 @@
 package rules
 
 import (
+	"strconv"
 	"fmt"
 	"go/token"
 	"go/types"
@@ -198,113 +199,118 @@ func checkIntAccept(c *core.Ctx, l *core.Ledger) {
 		return
 	}
 	specs := map[string][2]int64{"I8Spec": {math.MinInt8, math.MaxInt8}, "I16Spec": {math.MinInt16, math.MaxInt16}, "I32Spec": {math.MinInt32, math.MaxInt32}}
-	param := f.Params[0] // receiver c (ConstantInt)
-	al := map[ssa.Value]bool{}
-	for _, a := range core.Aliases(param) {
-		al[a] = true
-	}
-	found := map[string]bool{}
-	// success returns returning the receiver unchanged
-	core.Instrs(f, func(in ssa.Instruction) {
-		ta, ok := in.(*ssa.TypeAssert)
-		if !ok || !ta.CommaOk {
-			return
-		}
-		name := core.RecvTypeName(ta.AssertedType)
-		bounds, tracked := specs[name]
-		if !tracked {
-			return
-		}
-		found[name] = true
-		// the edge on which the assertion succeeded
-		var okEdges []core.Edge
-		for _, r := range *ta.Referrers() {
-			ex, isEx := r.(*ssa.Extract)
-			if !isEx || ex.Index != 1 {
+	// success paths of Link, helpers of the package explored in place; every comparison of the value
+	// with a constant (after folding, with helper parameters bound to the caller's arguments) is a fact
+	flip := map[token.Token]token.Token{token.LSS: token.GTR, token.LEQ: token.GEQ, token.GTR: token.LSS, token.GEQ: token.LEQ, token.EQL: token.EQL, token.NEQ: token.NEQ}
+	neg := map[token.Token]token.Token{token.LSS: token.GEQ, token.LEQ: token.GTR, token.GTR: token.LEQ, token.GEQ: token.LSS, token.EQL: token.NEQ, token.NEQ: token.EQL}
+	label := func(ifi *ssa.If, idx int) string {
+		cond := ifi.Cond
+		negated := idx == 1
+		for {
+			if u, ok := cond.(*ssa.UnOp); ok && u.Op == token.NOT {
+				cond, negated = u.X, !negated
 				continue
 			}
-			for _, rr := range *ex.Referrers() {
-				if ifi, isIf := rr.(*ssa.If); isIf {
-					okEdges = append(okEdges, core.Edge{From: ifi.Block(), To: ifi.Block().Succs[0]})
+			break
+		}
+		switch x := cond.(type) {
+		case *ssa.Extract:
+			if ta, ok := x.Tuple.(*ssa.TypeAssert); ok && x.Index == 1 {
+				s := "is(" + core.RecvTypeName(ta.AssertedType) + ")"
+				if negated {
+					return "!" + s
+				}
+				return s
+			}
+		case *ssa.BinOp:
+			op := x.Op
+			if _, ok := flip[op]; !ok {
+				return ""
+			}
+			a, b := core.ConstVal(x.X), core.ConstVal(x.Y)
+			var k int64
+			switch {
+			case b.Kind == core.CInt && core.Sym(x.X) == "$0":
+				k = b.I
+			case a.Kind == core.CInt && core.Sym(x.Y) == "$0":
+				k, op = a.I, flip[op]
+			default:
+				return ""
+			}
+			if negated {
+				op = neg[op]
+			}
+			return fmt.Sprintf("F:%s:%d", op, k)
+		}
+		return ""
+	}
+	seqs, ok := core.SuccessSeqs(f, core.SeqOpts{EdgeLabel: label, Inline: inlineHelpers(), Classify: func(in ssa.Instruction, inLoop bool) []string { return nil }})
+	if !ok {
+		l.Unk("INT-ACCEPT", "ConstantInt.Link", c.Rel(f.Pos()), "too many paths")
+		return
+	}
+	type iv struct{ lo, hi int64 }
+	accepted := map[string][]iv{}
+	for _, s := range seqs {
+		arm := ""
+		lo, hi := int64(math.MinInt64), int64(math.MaxInt64)
+		for _, e := range s {
+			switch {
+			case strings.HasPrefix(e, "is("):
+				arm = strings.TrimSuffix(strings.TrimPrefix(e, "is("), ")")
+			case strings.HasPrefix(e, "F:"):
+				parts := strings.SplitN(e[2:], ":", 2)
+				k, _ := strconv.ParseInt(parts[1], 10, 64)
+				switch parts[0] {
+				case "<":
+					if k-1 < hi {
+						hi = k - 1
+					}
+				case "<=":
+					if k < hi {
+						hi = k
+					}
+				case ">":
+					if k+1 > lo {
+						lo = k + 1
+					}
+				case ">=":
+					if k > lo {
+						lo = k
+					}
+				case "==":
+					lo, hi = k, k
 				}
 			}
 		}
-		// success returns reachable through that edge only... find returns (nil error) dominated by okEdges
-		nret := 0
-		bad := 0
-		core.Instrs(f, func(i2 ssa.Instruction) {
-			r, isRet := i2.(*ssa.Return)
-			if !isRet || !core.IsNilErrorReturn(r) {
-				return
-			}
-			// reachable from the ok edge?
-			reach := false
-			for _, e := range okEdges {
-				seen := map[*ssa.BasicBlock]bool{}
-				st := []*ssa.BasicBlock{e.To}
-				for len(st) > 0 {
-					b := st[len(st)-1]
-					st = st[:len(st)-1]
-					if seen[b] {
-						continue
-					}
-					seen[b] = true
-					if b == r.Block() {
-						reach = true
-					}
-					// do not continue through other successful type tests (other arms)
-					stop := false
-					for _, in3 := range b.Instrs {
-						if ta2, ok := in3.(*ssa.TypeAssert); ok && ta2 != ta && ta2.CommaOk && b != e.To {
-							stop = true
-						}
-					}
-					if !stop {
-						st = append(st, b.Succs...)
-					}
-				}
-			}
-			if !reach {
-				return
-			}
-			// this return is shared by several arms (case *I8Spec, *I16Spec, ...: return c, nil):
-			// it must be guarded for the narrowest width reaching it; we require the
-			// guard for *this* width on every path from this arm's ok edge.
-			nret++
-			loEdges := core.GuardEdges(f, func(cm core.Cmp) bool {
-				if !al[cm.X] {
-					return false
-				}
-				kk, isK := core.ConstInt(cm.Y)
-				return isK && ((cm.Op == token.GEQ && kk >= bounds[0]) || (cm.Op == token.GTR && kk >= bounds[0]-1))
-			})
-			hiEdges := core.GuardEdges(f, func(cm core.Cmp) bool {
-				if !al[cm.X] {
-					return false
-				}
-				kk, isK := core.ConstInt(cm.Y)
-				return isK && ((cm.Op == token.LEQ && kk <= bounds[1]) || (cm.Op == token.LSS && kk <= bounds[1]+1))
-			})
-			// paths from the ok edge to the return must pass both guards: ban guards, check reachability from e.To
-			for _, e := range okEdges {
-				if reachableAvoiding(e.To, r.Block(), loEdges) || reachableAvoiding(e.To, r.Block(), hiEdges) {
-					bad++
-				}
-			}
-		})
+		if _, tracked := specs[arm]; tracked {
+			accepted[arm] = append(accepted[arm], iv{lo, hi})
+		}
+	}
+	for name, bounds := range specs {
 		key := "ConstantInt.Link:" + name
-		if nret == 0 {
-			l.Ok("INT-ACCEPT", key, c.Rel(ta.Pos()), "no success return is reachable from this arm")
-		} else if bad > 0 {
-			l.Bad("INT-ACCEPT", key, c.Rel(ta.Pos()), fmt.Sprintf("an integer constant is accepted for %s without a test that it lies in [%d,%d]: e.g. a value one past the bound compiles and the generated Go constant overflows (or silently wraps)", strings.TrimSuffix(name, "Spec"), bounds[0], bounds[1]))
-		} else {
-			l.Ok("INT-ACCEPT", key, c.Rel(ta.Pos()), fmt.Sprintf("every accepting path tests both bounds [%d,%d]", bounds[0], bounds[1]))
+		ivs := accepted[name]
+		if len(ivs) == 0 {
+			l.Unk("INT-ACCEPT", key, c.Rel(f.Pos()), "no accepting path for this integer width found: dispatch shape not recognised")
+			continue
 		}
-	})
-	for name := range specs {
-		if !found[name] {
-			l.Unk("INT-ACCEPT", "ConstantInt.Link:"+name, c.Rel(f.Pos()), "no arm for this integer width found: dispatch shape not recognised")
+		var why []string
+		lo, hi := int64(math.MaxInt64), int64(math.MinInt64)
+		for _, v := range ivs {
+			if v.lo < lo {
+				lo = v.lo
+			}
+			if v.hi > hi {
+				hi = v.hi
+			}
 		}
+		if lo < bounds[0] || hi > bounds[1] {
+			why = append(why, fmt.Sprintf("an integer constant is accepted for %s in [%d,%d], wider than the type's range [%d,%d]: a value one past the bound compiles and the generated Go constant overflows (or silently wraps)", strings.TrimSuffix(name, "Spec"), lo, hi, bounds[0], bounds[1]))
+		}
+		if lo > bounds[0] || hi < bounds[1] {
+			why = append(why, fmt.Sprintf("valid constants of %s are rejected: accepted range [%d,%d], type range [%d,%d]", strings.TrimSuffix(name, "Spec"), lo, hi, bounds[0], bounds[1]))
+		}
+		l.Check(len(why) == 0, "INT-ACCEPT", key, c.Rel(f.Pos()), fmt.Sprintf("the values accepted on the arm for this width are exactly [%d,%d] (comparisons folded through helpers)", bounds[0], bounds[1]), strings.Join(why, "; "))
 	}
 	l.Floor("INT-ACCEPT", 3)
 }
